@@ -361,7 +361,6 @@ func roundTrip(u Universe, path []Call) {
 	for _, op := range otherPaths {
 		safeTo(replay(u, op))
 	}
-	safeTo(x)
 	e["stable"] = string(text) == saved
 	e["valid"] = json.Valid(text)
 	e["jkind"] = topKind(text)
